@@ -629,9 +629,12 @@ def _planted(ctx):
         # template is not an exact copy of what is correlated - bounds only, see _bounds)
         if score == "FLCSphericalMask":
             mask = _sym_mask(mask, rots)
-        sel = rng.permutation(len(rots))[: min(len(rots), int(rng.integers(1, 5 if nd == 2 else 7)))]
+        sel = rng.permutation(len(rots))[: min(len(rots), int(rng.integers(1, 5 if nd == 2 else 8)))]
         R = np.stack([rots[int(i)][2] for i in sel])
         which = int(rng.integers(0, len(sel)))
+        njobs_ = [1, 2, 2, 1, 3, 3, 1, 4, 4, 1, 1, 1][(it // 5) % 12]      # (the job count used below)
+        if njobs_ > 1 and len(sel) % njobs_ and len(sel) > njobs_:
+            which = len(sel) - 1       # the planted rotation is one of those only the last job's remainder covers
         perm, flip, _ = rots[int(sel[which])]
         gR = S.rotate_grid(template, perm, flip)
         # position p = translation of the template voxel m//2; the copy occupies [p - m//2, p - m//2 + m)
